@@ -41,6 +41,17 @@ func (g *gen) newName(shadow bool) string {
 	return fmt.Sprintf("v%d", g.f.nameCtr)
 }
 
+// newNameAvoid is newName that never returns one of the given names.
+func (g *gen) newNameAvoid(shadow bool, avoid ...string) string {
+	nm := g.newName(shadow)
+	for _, a := range avoid {
+		if a == nm {
+			return g.newName(false)
+		}
+	}
+	return nm
+}
+
 func (g *gen) isResult(name string) bool {
 	for _, r := range g.f.results {
 		if r.Name == name {
@@ -171,7 +182,7 @@ func (g *gen) genStmt() (n *Node, term bool) {
 	if g.f.inInit {
 		w[6], w[8], w[9] = 0, 0, 0
 	}
-	if g.f.noPanic || g.f.noSoft {
+	if !g.softStmtOK() {
 		w[9] = 0
 	}
 	if g.f.pure || g.f.inLambda {
@@ -686,7 +697,7 @@ func (g *gen) stLoop() *Node {
 			return nil
 		}
 		N := g.lenBound(v)
-		name := g.newName(true)
+		name := g.newNameAvoid(true, v.name)
 		iv := &vinfo{name: name, typ: "int", ro: true, lo: 0, hi: float64(N), idxOf: v}
 		g.add(iv)
 		oldRo := v.ro
@@ -745,12 +756,12 @@ func (g *gen) stLoop() *Node {
 			form = 0 // the value of a string range is a rune: only equal to the byte for ASCII content
 		}
 		if form == 0 || form == 1 {
-			nm := g.newName(true)
+			nm := g.newNameAvoid(true, v.name)
 			key = vr(nm)
 			g.add(&vinfo{name: nm, typ: "int", ro: true, lo: 0, hi: float64(N), idxOf: v})
 		}
 		if form == 1 || form == 2 {
-			nm := g.newName(true)
+			nm := g.newNameAvoid(true, v.name, key.S)
 			val = vr(nm)
 			switch v.typ {
 			case "[]int":
@@ -766,6 +777,8 @@ func (g *gen) stLoop() *Node {
 		g.f.mult *= max(N, 1)
 		n = &Node{K: "range", T: ":=", A: []*Node{key, val, vr(v.name)}}
 		g.useVar(v)
+		g.f.stackItems++
+		defer func() { g.f.stackItems-- }()
 		g.enterLoop("for")
 		g.nest()
 		g.push()
@@ -797,6 +810,8 @@ func (g *gen) stLoop() *Node {
 		g.add(&vinfo{name: nm, typ: "int", ro: true, lo: 0, hi: float64(N)})
 		g.f.mult *= N
 		n = &Node{K: "range", T: ":=", A: []*Node{vr(nm), none(), bound}}
+		g.f.stackItems++
+		defer func() { g.f.stackItems-- }()
 		g.enterLoop("for")
 		g.nest()
 		n.B, _ = g.genBlock(4)
@@ -930,6 +945,8 @@ func (g *gen) stSwitch() *Node {
 	}
 	l := g.enterLoop("switch")
 	_ = l
+	g.f.stackItems++
+	defer func() { g.f.stackItems-- }()
 	g.nest()
 	defPos := -1
 	if g.chance(65) {
@@ -1165,7 +1182,7 @@ func (g *gen) stCall() *Node {
 		}
 	}
 	self := false
-	if g.f.fuel != nil && g.f.selfCalls < 2 && !g.f.inLambda && g.f.loopDepth == 0 && g.room(4) {
+	if g.f.fuel != nil && g.f.selfCalls < 2 && !g.f.inLambda && g.f.loopDepth == 0 && g.room(4) && g.softStmtOK() {
 		cs = append(cs, g.f.sig)
 		self = true
 	}
@@ -1295,7 +1312,7 @@ func (g *gen) stDefer() *Node {
 	// function literal: closures are not supported by the dialect, so the body sees globals only
 	outer := g.f
 	lf := &fctx{sig: outer.sig, budget: outer.budget, cost: outer.cost, mult: outer.mult, inLambda: true,
-		hasDefer: false, protected: outer.protected, noPanic: outer.noPanic, noSoft: outer.noSoft, nameCtr: outer.nameCtr + 100, labelCtr: outer.labelCtr + 100}
+		hasDefer: false, protected: outer.protected, noPanic: outer.noPanic, noSoft: outer.noSoft || outer.noSoftExpr, nameCtr: outer.nameCtr + 100, labelCtr: outer.labelCtr + 100}
 	g.f = lf
 	g.push()
 	var body []*Node
